@@ -52,3 +52,53 @@ Proof.
   - intros c r Hr. split; [exact Hr|reflexivity].
   - vm_compute. split; reflexivity.
 Qed.
+
+(* Layout: after any sequence of Log calls every finished segment file is a whole number of
+   pages (so no record crosses a segment: a record is written entirely after the switch), all
+   logged bytes are on disk (flushed = alloc), the page is never left with fewer than 7 free
+   bytes, and the active file ends alloc bytes into a page. *)
+Theorem C13_layout :
+  forall (page_size : Z) (crc : list N -> N) (enc : N -> list N -> list N)
+         (dec : N -> list N -> option (list N)),
+  8 <= page_size <= 65542 ->
+  (forall l, (crc l < 4294967296)%N) ->
+  (forall c r, r <> [] -> enc c r <> [] /\ dec c (enc c r) = Some r) ->
+  forall (c : N) (pps : Z) (batches : list (list (list N))) (st : wst),
+  In c [0%N; 1%N; 2%N] ->
+  log_batches page_size crc enc c pps batches w_init = WOk st ->
+  Forall (fun s => exists q, 0 <= q /\ zlen s = page_size * q) (w_closed st) /\
+  w_flushed st = alloc st /\ alloc st + 7 <= page_size /\
+  exists q, 0 <= q /\ zlen (active_file st) = page_size * q + alloc st.
+Proof. exact wal_layout. Qed.
+
+(* Live reader.  Full statement (NOT proved in general):
+     forall page_size crc enc dec (same hypotheses), c, pps, batches, st,
+       log_batches ... batches w_init = WOk st ->
+       forall seg (the i-th of segments st) and every split of seg into chunks (chunks of any
+       sizes, including cuts inside headers and empty chunks),
+         live_run page_size crc dec chunks l_init = (outs, NEof) with
+         concat outs = the records stored in segment i, and the concatenation over all
+         segments = concat batches.
+   Proved here: the statement for a bounded family, by evaluation of the model —
+   page size 16 / 2 pages per segment, all logs of at most 3 records with lengths in
+   {0,1,2,8,9,10,19,30} (585 logs: empty records, records filling a page exactly, +-1, records
+   larger than a segment), and page size 9 / 3 pages per segment, all logs of 1..3 records with
+   lengths in {0,1,2,3,5,7}; for every segment of every such log, EVERY single cut position
+   (the reader sees a prefix, drains, then sees the rest — this includes every partial flush and
+   every cut inside a header) and byte-by-byte release.  In each case the LiveReader returns
+   exactly the records of that segment, ends in the EOF ("try again") state, and the
+   per-segment record lists concatenate to the logged records.
+   Missing: the induction over arbitrary page sizes, record lengths and multi-cut chunkings. *)
+Theorem C13_live_partial :
+  forallb (fun ls => check_log 16 2 (mklog ls)) live_logs = true /\
+  forallb (fun ls => check_log 9 3 (mklog ls)) live_logs2 = true.
+Proof. exact (conj live_bounded live_bounded2). Qed.
+
+(* non-vacuity: the family contains a log with a record spanning two segments' worth of pages,
+   and a wrong expectation is rejected by the same checker *)
+Example C13_live_partial_nonvacuous :
+  existsb (fun l => match l with [30; 0; 9]%nat => true | _ => false end) live_logs = true /\
+  length live_logs = 585%nat /\
+  check_log 16 2 (mklog [30; 0; 9]%nat) = true /\
+  live_ok 16 [[1%N]] [[1; 0; 1; 5; 5; 5; 5; 2]%N] = false.
+Proof. vm_compute. repeat split; reflexivity. Qed.
